@@ -3,6 +3,7 @@ package main
 import (
 	"context"
 	"encoding/binary"
+	"encoding/hex"
 	"errors"
 	"fmt"
 	"github.com/gogo/protobuf/proto"
@@ -77,7 +78,9 @@ type DirCase struct {
 	Script   [][]any   `json:"script"`
 	MixV0    bool      `json:"mixv0"`
 	Timeout  bool      `json:"timeout"` // injected load errors report themselves as timeouts
-	Hasher   uint64    `json:"hasher"`  // sharded builder: multihash code of the name hasher (0 = murmur3) // entries with odd ids point at a CIDv0 (34-byte) target instead of a CIDv1 (36-byte) one
+	Hasher   uint64    `json:"hasher"`  // sharded builder: multihash code of the name hasher (0 = murmur3)
+	// UniverseHex carries the names byte-exactly (JSON strings cannot hold bytes that are not valid UTF-8)
+	UniverseHex []string `json:"universehex"` // entries with odd ids point at a CIDv0 (34-byte) target instead of a CIDv1 (36-byte) one
 }
 
 const nTargets = 4
@@ -443,11 +446,31 @@ func dpbString(s string) dagpb.String {
 }
 
 func runDirCase(dc *DirCase, tr *Tr) error {
+	if len(dc.UniverseHex) == len(dc.Universe) && len(dc.Universe) > 0 {
+		for i, h := range dc.UniverseHex {
+			if b, err := hex.DecodeString(h); err == nil {
+				dc.Universe[i] = string(b)
+			}
+		}
+	} else {
+		dc.UniverseHex = make([]string, len(dc.Universe))
+		for i, n := range dc.Universe {
+			dc.UniverseHex[i] = hex.EncodeToString([]byte(n))
+		}
+	}
 	st := NewStore()
 	targets := putTargets(st)
 	root, size, err := buildDir(st, dc, targets)
 	if err != nil {
-		return fmt.Errorf("build %s: %w", dc.ID, err)
+		if dc.Builder == "boxo" || dc.Builder == "raw" {
+			return fmt.Errorf("build %s: %w", dc.ID, err)
+		}
+		// this library's builder refuses a set of distinctly named entries: a finding about the builder, not a harness fault
+		tr.Emit(M{"ev": "reset", "case": caseString(dc)})
+		tr.Emit(M{"ev": "dir", "kind": "unwalkable", "F": dc.Fanout, "S": []WShard{}, "plain": []WPlain{}, "expect": [][]int{},
+			"digits": [][]int{}, "missing": []int{}, "entryC": []int{}, "mode": dc.Mode, "size": 0, "builder": dc.Builder,
+			"rootC": 0, "nuniv": len(dc.Universe), "walkErr": "builder error: " + err.Error()})
+		return nil
 	}
 	dw, err := walkDir(st, root, dc.Universe)
 	if err != nil {
